@@ -168,3 +168,55 @@ Section Conc3.
     ({| s3 := init_shared now0; s3_id := fun _ => 0; s3_next := 1 |},
      map (fun p => {| l3_base := init_local p; l3_saw := None |}) progs).
 End Conc3.
+
+(* ------------------------------------------------------------------------------------------ *)
+(* Reads of composite values copy INSIDE their critical section                                *)
+(* ------------------------------------------------------------------------------------------ *)
+(* memory.Storage keeps one map per hash and SetHash / DeleteHash write into it (in place).  Get / GetAllHash / GetList
+   return a copy, and in [tstep] the copy is part of the read's single step.  The variant below is "look the value up under
+   the read lock, copy it after releasing the lock": the first step only remembers which fields to copy, then every field is
+   read in a step of its own FROM THE MAP AS IT IS THEN, and the answer is returned (and logged) when the copy is complete.
+   (If the key is overwritten by a call that installs a new item, the real code would go on reading the old map; the variant
+   reads whatever is stored — it is only used with in-place writers.)  Kept to be refuted
+   (Proofs/KV.copy_after_unlock_refuted); the harness' "torn" scenario is the same race on the real code. *)
+Record local4 := { l4_base : local; l4_copy : option (key * list key * hash) }.
+
+Section Conc4.
+  Variable D : N.
+  Variable V : kvariant.
+
+  Definition tstep_copy_after_unlock (lo : local4) (sh : shared) : local4 * shared :=
+    let m := sh_m sh in
+    match l4_copy lo with
+    | Some (k, f :: rest, acc) =>
+        let acc' := match m k with
+                    | Some it => match val it with
+                                 | VHash h => match hget h f with Some x => acc ++ [(f, x)] | None => acc end
+                                 | _ => acc
+                                 end
+                    | None => acc
+                    end in
+        ({| l4_base := l4_base lo; l4_copy := Some (k, rest, acc') |}, sh)
+    | Some (k, [], acc) =>
+        let b := l4_base lo in
+        ({| l4_base := {| lo_prog := tl (lo_prog b); lo_pending := None; lo_seen := lo_seen b ++ [(KGet k, OVal (VHash acc))] |};
+            l4_copy := None |},
+         {| sh_m := m; sh_now := sh_now sh; sh_log := sh_log sh ++ [(KGet k, OVal (VHash acc))] |})
+    | None =>
+        let plain := let '(b, sh') := tstep D V (l4_base lo) sh in ({| l4_base := b; l4_copy := None |}, sh') in
+        match lo_pending (l4_base lo), lo_prog (l4_base lo) with
+        | None, KGet k :: _ =>
+            match live (sh_now sh) (m k) with
+            | Some it => match val it with
+                         | VHash h => ({| l4_base := l4_base lo; l4_copy := Some (k, map fst h, []) |}, sh)
+                         | _ => plain
+                         end
+            | None => plain
+            end
+        | _, _ => plain
+        end
+    end.
+
+  Definition init4 (now0 : N) (progs : list (list op)) : shared * list local4 :=
+    (init_shared now0, map (fun p => {| l4_base := init_local p; l4_copy := None |}) progs).
+End Conc4.
